@@ -134,6 +134,13 @@ func (ws *wsClient) frame(w *World, b []byte) []byte {
 			w.Faults["ws.unaligned"]++
 		}
 		emit(stream)
+	case 6: // pack: several MQTT packets travel in one message (held back until enough has gathered or the flush timer fires)
+		if len(stream) < 400+rng.IntN(600) {
+			ws.pending = append([]byte{}, stream...)
+			w.Faults["ws.packed"]++
+			return out
+		}
+		emit(stream)
 	case 5: // leave exactly one byte for the next message
 		if len(stream) > 1 {
 			emit(stream[:len(stream)-1])
